@@ -13,6 +13,9 @@ def load_contracts():
     for m in pkgutil.iter_modules(contracts.__path__):
         if m.name.startswith("c_") or m.name in ("vocab", "lemmas"):
             importlib.import_module("contracts." + m.name)
+    import os
+    for extra in filter(None, os.environ.get("VERIF_EXTRA_CONTRACTS", "").split(",")):
+        importlib.import_module("contracts." + extra)      # work-in-progress contract modules (development only)
 
 
 def main(argv):
